@@ -87,7 +87,7 @@ COMMON_ASSUMPTIONS = [
 
 
 def harness_names(module):
-    src = open(os.path.join(K.KDIR, "src", module + ".rs")).read()
+    src = open(os.path.join(VERIF, "engines", "kani", "src", module + ".rs")).read()
     blk = src[src.rindex("crate::harnesses!"):]
     return [(n, bool(q)) for q, n in re.findall(r"^\s*(@quick\s+)?(\w+)\s*\[\d+\]\s*=>", blk, re.M)]
 
